@@ -19,6 +19,14 @@ CHECKS = {
         design="§4 C10"),
 }
 
+CHECKS["C06"] = dict(
+    text="Bounded symbolic execution of the real Pickled.load/dumps/dump, Opcode construction and StackedPickle.load over "
+         "`prefix|code|arg|STOP|tail` inputs: for every opcode of pickletools.opcodes the fixed-width argument bytes, length fields, "
+         "raw payloads (<=3 bytes), trailing bytes (<=2) and skipped prefix are solver variables; each family lemma is "
+         "Confirmed over all paths, so the byte-exact round trip and stream position hold for every argument value within those sizes.",
+    technique="CrossHair symbolic execution + z3 over symbolic opcode arguments/tails; per-encoding-family lemmas; native replay",
+    design="§4 C06")
+
 NOT_APPLICABLE = {
     "C16": "every observable sits behind zipfile/zlib/torch C-level I/O; symbolic inputs are realised at the first call so the solver has nothing to decide (DESIGN §5); the pickle-level half is covered by C08",
 }
